@@ -625,16 +625,20 @@ def _diff_kind(impl, spec):
 
 
 def _entries_key(sec, impl):
+    """a stable name for the class of section an entry mismatch was seen on"""
     eh, le, asize, addr, entries = sec
     feats = []
     if any(e[0] != 'zero' and e[1] for e in entries):
         feats.append('dwarf64')
     if eh:
-        cies_wo_R = [i for i, e in enumerate(entries) if e[0] == 'cie' and (e[3] == 'none' or not any(it[0] == 'R' for it in e[3][1]))]
-        if any(e[0] == 'fde' and e[2] in cies_wo_R for e in entries):
-            feats.append('eh-cie-without-R')
-    err = impl[1] if isinstance(impl, list) and impl and impl[0] == 'err' else 'mismatch'
-    return 'entries/%s/%s/%s' % ('eh_frame' if eh else 'debug_frame', '+'.join(feats) or 'plain', err)
+        wo_z = [i for i, e in enumerate(entries) if e[0] == 'cie' and e[3] == 'none']
+        wo_R = [i for i, e in enumerate(entries)
+                if e[0] == 'cie' and e[3] != 'none' and not any(it[0] == 'R' for it in e[3][1])]
+        if any(e[0] == 'fde' and e[2] in wo_z for e in entries):
+            feats.append('fde-of-cie-without-z')
+        if any(e[0] == 'fde' and e[2] in wo_R for e in entries):
+            feats.append('fde-of-cie-without-R')
+    return 'entries/%s/%s' % ('eh_frame' if eh else 'debug_frame', '+'.join(feats) or 'plain')
 
 
 def _damage(data, how, seed):
